@@ -201,6 +201,7 @@ func main() {
 		"a lock entry with the revision's name but another source, inactive revisions. For a missing dependency declared by several parents with " +
 		"different constraints the version is accepted if it is correct for any one parent's constraint (the property speaks of 'the declared constraint')."
 	c.Rule += " dep: a fifth of the cases list one dependency twice with different constraints (every entry counts)."
+	c.Rule += " " + "A third party edits the Lock right before call k of Resolve."
 	c.Assumptions = []string{
 		"github.com/Masterminds/semver NewVersion/NewConstraint/Constraints.Check/Version.Compare are the trusted primitives",
 		"a digest constraint is exactly sha256:<64 lowercase hex>",
